@@ -15,7 +15,7 @@ import (
 func init() {
 	register("C10", PropCheck{
 		Title:      "Every storage backend behaves as the same keyed map",
-		Explain:    "Agreement clauses, decided for each db.Db implementation of the library (memory, filesystem, Postgres): (R1) every storage mutation in Put is only reached on the true edge of CheckPut(); (R2) baseDb.seal is only ever stored true, and every store to baseDb.lock that can remove a lock is behind the seal==false edge; (R3) Put and Get derive their storage keys from DbBase.ToKey applied to the caller's key, and every path of Get to its not-found return has passed a lookup that uses the Default key (translation-then-default fallback present); (R4) the miss return of every Get is built with db.NewErrNotFound; (R5) the data-type predicates: session prefix exactly for STATE and USERDATA, language suffix exactly for MENU, TEMPLATE and STATICLOAD (constant comparison/mask extracted and evaluated over the DATATYPE_* constants); (R6) every db.Db.Get made by DbResource is preceded by mustSafe(), which panics unless Safe(); (R7) the sticky context setters SetSession/SetPrefix/SetLanguage store their argument on every path (no path keeps the previous context); (R9) the filesystem back end's listing examines every directory entry: the listing cursor is only ever assigned the full os.ReadDir result or itself re-sliced from index 1 (added after seeded change C10-C, which seeks into the listing with a binary search over on-disk names).",
+		Explain:    "Agreement clauses, decided for each db.Db implementation of the library (memory, filesystem, Postgres): (R1) every storage mutation in Put is only reached on the true edge of CheckPut(); (R2) baseDb.seal is only ever stored true, and every store to baseDb.lock that can remove a lock is behind the seal==false edge; (R3) Put and Get derive their storage keys from DbBase.ToKey applied to the caller's key, and every path of Get to its not-found return has passed a lookup that uses the Default key (translation-then-default fallback present); (R4) the miss return of every Get is built with db.NewErrNotFound; (R5) the data-type predicates: session prefix exactly for STATE and USERDATA, language suffix exactly for MENU, TEMPLATE and STATICLOAD (constant comparison/mask extracted and evaluated over the DATATYPE_* constants); (R6) every db.Db.Get made by DbResource is preceded by mustSafe(), which panics unless Safe(); (R7) the sticky context setters SetSession/SetPrefix/SetLanguage store their argument on every path (no path keeps the previous context); (R9) the filesystem back end's listing examines every directory entry: the listing cursor is only ever assigned the full os.ReadDir result or itself re-sliced from index 1 (added after seeded change C10-C, which seeks into the listing with a binary search over on-disk names); (R10) the filesystem back end answers Get from the store: every value a success return hands out is the result of a file read made in that call, never a memoised copy kept beside the store (added after seeded change C10-H, a read cache keyed by the first probed path).",
 		NotDecided: "read-your-writes over histories, Dump listing beyond the cursor clause R9 (which entries match, their order), interleavings of sticky context switches, text versus binary values - value- and history-level; the gdbm backend is not analysable here (cgo header missing) and is outside the property's backend list.",
 		Run:        runC10,
 	})
@@ -174,6 +174,7 @@ func runC10(w *core.World, r *core.Report) {
 	r.Rule("R6", "DbResource: mustSafe() precedes every db.Get and panics unless Safe()")
 	r.Rule("R7", "SetSession/SetPrefix/SetLanguage store their argument on every path")
 	r.Rule("R8", "memory backend: presence of a key is decided by the map's comma-ok result, never by the value")
+	r.Rule("R10", "fs Get answers from the store: every value it returns is what a file read returned in that call (no memoised copy beside the store)")
 	r.Rule("R9", "filesystem listing: the directory cursor is the full listing and only ever advances by one entry (no entry is skipped unexamined)")
 
 	bes := dbBackends(w, r)
@@ -511,6 +512,38 @@ func runC10(w *core.World, r *core.Report) {
 		}
 		r.Check(bad == "" && sawFull && sawStep, "R9", "db/fs listing cursor: full listing, advanced one entry at a time", token.NoPos, fmt.Sprintf("%d stores: os.ReadDir result or cursor[1:]", n),
 			"the listing can skip directory entries without examining them (a key that exists is not listed): "+bad)
+	}
+
+	// ---- R10 ----------------------------------------------------------------------------------
+	if get := w.Func("db/fs", "(*fsDb).Get"); get != nil {
+		r.Touch(core.QName(get))
+		n, bad := 0, ""
+		var badPos token.Pos
+		for _, ret := range successReturns(get) {
+			v := core.ReturnValue(ret, 0)
+			if v == nil || core.IsNilConst(v) {
+				continue
+			}
+			n++
+			roots, _ := core.DeepSources(v, nil)
+			for _, rt := range roots {
+				okRoot := false
+				if c, i, ok := core.ExtractOf(rt); ok && i == 0 && core.IsCallTo(c, "io/ioutil.ReadAll", "io.ReadAll", "os.ReadFile", "io/ioutil.ReadFile") {
+					okRoot = true
+				}
+				if cst, ok := rt.(*ssa.Const); ok && cst.IsNil() {
+					okRoot = true
+				}
+				if !okRoot {
+					bad = fmt.Sprintf("a returned value derives from %T, not from a file read of this call", rt)
+					badPos = ret.Pos()
+				}
+			}
+		}
+		r.Check(bad == "" && n > 0, "R10", "db/fs.(*fsDb).Get: values come from the store", badPos, fmt.Sprintf("%d success return(s) return the bytes read from the file", n),
+			"the filesystem back end can answer a Get from a copy kept beside the store: after a Put through another key form (language fallback) or another store object the copy is stale and the back ends diverge: "+bad)
+	} else {
+		r.Undecided("R10", "db/fs.(*fsDb).Get", token.NoPos, "anchor not found")
 	}
 }
 
